@@ -2,7 +2,7 @@
    (PL_CDR) and ParticipantMessageData (plain CDR).
    Rust: discovery/sedp_messages.rs, discovery/content_filter_property.rs.
 
-   Not modelled: security_info (feature "security"; always None / parameter absent), and the three
+   Not modelled: the three
    DDS-RPC fields of SubscriptionBuiltinTopicData (service_instance_name, related_datawriter_key,
    topic_aliases): they are private, `new` is the only constructor and sets them to None, the
    deserialiser never fills them. *)
@@ -157,7 +157,8 @@ Record reader_data := {
   rd_topic_name : list Z;
   rd_type_name : list Z;
   rd_qos : qos;                        (* subscription_topic_data.qos() *)
-  rd_content_filter : option content_filter }.
+  rd_content_filter : option content_filter;
+  rd_security_info : option secinfo }.         (* subscription_topic_data.security_info *)
 
 (* Subscription/PublicationBuiltinTopicData::qos(): no history, no resource limits *)
 Definition endpoint_qos (q : qos) : qos :=
@@ -176,7 +177,8 @@ Definition reader_to_params (e : endian) (v : reader_data) : list param :=
   [(PID_TOPIC_NAME, enc_string e (rd_topic_name v))] ++
   [(PID_TYPE_NAME, enc_string e (rd_type_name v))] ++
   qos_to_params e (endpoint_qos (rd_qos v)) ++
-  opt_param PID_CONTENT_FILTER_PROPERTY (enc_cfp e) (rd_content_filter v).
+  opt_param PID_CONTENT_FILTER_PROPERTY (enc_cfp e) (rd_content_filter v) ++
+  opt_param PID_ENDPOINT_SECURITY_INFO (enc_secinfo e) (rd_security_info v).
 
 Definition reader_from_map (e : endian) (m : plmap) : option reader_data :=
   guid <-? get_first dec_guid m PID_ENDPOINT_GUID ;;
@@ -188,11 +190,13 @@ Definition reader_from_map (e : endian) (m : plmap) : option reader_data :=
   topic_name <-? get_first (dec_string e) m PID_TOPIC_NAME ;;
   type_name <-? get_first (dec_string e) m PID_TYPE_NAME ;;
   content_filter <-? get_option (dec_cfp e) m PID_CONTENT_FILTER_PROPERTY ;;
+  security_info <-? get_option (dec_secinfo ENDPOINT_SEC_BITS e) m PID_ENDPOINT_SECURITY_INFO ;;
   qos <-? qos_from_map e m ;;
   Some {| rd_remote_reader_guid := guid; rd_expects_inline_qos := expects_inline_qos;
           rd_unicast := unicast; rd_multicast := multicast; rd_key := guid;
           rd_participant_key := participant_guid; rd_topic_name := topic_name; rd_type_name := type_name;
-          rd_qos := endpoint_qos qos; rd_content_filter := content_filter |}.
+          rd_qos := endpoint_qos qos; rd_content_filter := content_filter;
+          rd_security_info := security_info |}.
 
 Definition reader_pids : list Z := [90; 80; 67; 47; 48; 5; 7; 53; 4100] ++ qos_pids.
 Definition encode_reader (e : endian) (v : reader_data) : list Z := enc_pl e (reader_to_params e v).
@@ -203,7 +207,7 @@ Definition reader_ok (v : reader_data) : Prop :=
   Forall locator_ok (rd_unicast v) /\ Forall locator_ok (rd_multicast v) /\
   oall guid_ok (rd_participant_key v) /\ pstring_ok (rd_topic_name v) /\ pstring_ok (rd_type_name v) /\
   qos_ok (rd_qos v) /\ q_history (rd_qos v) = None /\ q_resource_limits (rd_qos v) = None /\
-  oall cfp_ok (rd_content_filter v).
+  oall cfp_ok (rd_content_filter v) /\ oall (secinfo_ok ENDPOINT_SEC_BITS) (rd_security_info v).
 
 (* ------------------------------------------------------------------------------------------ *)
 (* DiscoveredWriterData = WriterProxy + PublicationBuiltinTopicData (last_updated is not serialised) *)
@@ -219,7 +223,8 @@ Record writer_data := {
   wd_qos : qos;
   wd_service_instance_name : option (list Z);
   wd_related_datareader_key : option guid;
-  wd_topic_aliases : option (list (list Z)) }.
+  wd_topic_aliases : option (list (list Z));
+  wd_security_info : option secinfo }.
 
 Definition writer_to_params (e : endian) (v : writer_data) : list param :=
   opt_param PID_TYPE_MAX_SIZE_SERIALIZED (enc_u32 e) (wd_data_max_size_serialized v) ++
@@ -232,7 +237,8 @@ Definition writer_to_params (e : endian) (v : writer_data) : list param :=
   qos_to_params e (endpoint_qos (wd_qos v)) ++
   opt_param PID_SERVICE_INSTANCE_NAME (enc_string e) (wd_service_instance_name v) ++
   opt_param PID_RELATED_ENTITY_GUID enc_guid (wd_related_datareader_key v) ++
-  params_of PID_TOPIC_ALIASES (map (enc_string e) (unwrap_or (wd_topic_aliases v) [])).
+  params_of PID_TOPIC_ALIASES (map (enc_string e) (unwrap_or (wd_topic_aliases v) [])) ++
+  opt_param PID_ENDPOINT_SECURITY_INFO (enc_secinfo e) (wd_security_info v).
 
 (* the deserialiser as it was at the pinned commit: the three DDS-RPC fields are written by
    to_parameter_list but never read back (PublicationBuiltinTopicData::new sets them to None) *)
@@ -244,12 +250,14 @@ Definition writer_from_map_old (e : endian) (m : plmap) : option writer_data :=
   topic_name <-? get_first (dec_string e) m PID_TOPIC_NAME ;;
   type_name <-? get_first (dec_string e) m PID_TYPE_NAME ;;
   data_max_size_serialized <-? get_option (dec_u32 e) m PID_TYPE_MAX_SIZE_SERIALIZED ;;
+  security_info <-? get_option (dec_secinfo ENDPOINT_SEC_BITS e) m PID_ENDPOINT_SECURITY_INFO ;;
   qos <-? qos_from_map e m ;;
   Some {| wd_remote_writer_guid := guid; wd_unicast := unicast; wd_multicast := multicast;
           wd_data_max_size_serialized := data_max_size_serialized; wd_key := guid;
           wd_participant_key := participant_guid; wd_topic_name := topic_name; wd_type_name := type_name;
           wd_qos := endpoint_qos qos; wd_service_instance_name := None;
-          wd_related_datareader_key := None; wd_topic_aliases := None |}.
+          wd_related_datareader_key := None; wd_topic_aliases := None;
+          wd_security_info := security_info |}.
 
 Definition writer_pids_old : list Z := [90; 80; 47; 48; 5; 7; 96; 4100] ++ qos_pids.
 Definition encode_writer (e : endian) (v : writer_data) : list Z := enc_pl e (writer_to_params e v).
@@ -266,6 +274,7 @@ Definition writer_from_map (e : endian) (m : plmap) : option writer_data :=
   topic_name <-? get_first (dec_string e) m PID_TOPIC_NAME ;;
   type_name <-? get_first (dec_string e) m PID_TYPE_NAME ;;
   data_max_size_serialized <-? get_option (dec_u32 e) m PID_TYPE_MAX_SIZE_SERIALIZED ;;
+  security_info <-? get_option (dec_secinfo ENDPOINT_SEC_BITS e) m PID_ENDPOINT_SECURITY_INFO ;;
   service_instance_name <-? get_option (dec_string e) m PID_SERVICE_INSTANCE_NAME ;;
   related_datareader_key <-? get_option dec_guid m PID_RELATED_ENTITY_GUID ;;
   aliases <-? get_all (dec_string e) m PID_TOPIC_ALIASES ;;
@@ -275,7 +284,8 @@ Definition writer_from_map (e : endian) (m : plmap) : option writer_data :=
           wd_data_max_size_serialized := data_max_size_serialized; wd_key := guid;
           wd_participant_key := participant_guid; wd_topic_name := topic_name; wd_type_name := type_name;
           wd_qos := endpoint_qos qos; wd_service_instance_name := service_instance_name;
-          wd_related_datareader_key := related_datareader_key; wd_topic_aliases := topic_aliases |}.
+          wd_related_datareader_key := related_datareader_key; wd_topic_aliases := topic_aliases;
+          wd_security_info := security_info |}.
 
 Definition writer_pids : list Z := [90; 80; 47; 48; 5; 7; 96; 128; 129; 130; 4100] ++ qos_pids.
 Definition decode_writer (e : endian) (bs : list Z) : outcome writer_data :=
@@ -289,7 +299,7 @@ Definition writer_ok (v : writer_data) : Prop :=
   oall guid_ok (wd_participant_key v) /\ pstring_ok (wd_topic_name v) /\ pstring_ok (wd_type_name v) /\
   qos_ok (wd_qos v) /\ q_history (wd_qos v) = None /\ q_resource_limits (wd_qos v) = None /\
   oall pstring_ok (wd_service_instance_name v) /\ oall guid_ok (wd_related_datareader_key v) /\
-  oall aliases_ok (wd_topic_aliases v).
+  oall aliases_ok (wd_topic_aliases v) /\ oall (secinfo_ok ENDPOINT_SEC_BITS) (wd_security_info v).
 
 (* ------------------------------------------------------------------------------------------ *)
 (* DiscoveredTopicData = TopicBuiltinTopicData (updated_time is not serialised) *)
@@ -324,6 +334,35 @@ Definition decode_topic (e : endian) (bs : list Z) : outcome topic_data := with_
 Definition topic_ok (v : topic_data) : Prop :=
   oall guid_ok (td_key v) /\ pstring_ok (td_name v) /\ pstring_ok (td_type_name v) /\
   qos_ok (td_qos v) /\ q_time_based_filter (td_qos v) = None.
+
+(* ------------------------------------------------------------------------------------------ *)
+(* Participant_GUID (spdp_participant_data.rs) and Endpoint_GUID (sedp_messages.rs): the keys of the
+   discovery topics, sent alone when an instance is disposed: one GUID parameter *)
+Inductive key_kind := ParticipantKey | EndpointKey.
+Definition key_pid (k : key_kind) : Z :=
+  match k with ParticipantKey => PID_PARTICIPANT_GUID | EndpointKey => PID_ENDPOINT_GUID end.
+Definition key_to_params (k : key_kind) (g : guid) : list param := [(key_pid k, enc_guid g)].
+Definition key_from_map (k : key_kind) (m : plmap) : option guid := get_first dec_guid m (key_pid k).
+Definition encode_key (e : endian) (k : key_kind) (g : guid) : list Z := enc_pl e (key_to_params k g).
+Definition decode_key (e : endian) (k : key_kind) (bs : list Z) : outcome guid := with_pl e bs (key_from_map k).
+
+Lemma key_params_ok k g : guid_ok g -> Forall param_ok (key_to_params k g).
+Proof.
+  intros H. unfold key_to_params. apply one_param_ok.
+  - destruct k; unfold u16_ok; cbn; lia.
+  - destruct k; discriminate.
+  - unfold guid_ok, enc_guid in *. rewrite H. lia.
+Qed.
+Theorem roundtrip_key e k g : guid_ok g -> decode_key e k (encode_key e k g) = Ok g.
+Proof.
+  intros H. unfold decode_key, encode_key, with_pl.
+  rewrite <- (app_nil_r (enc_pl e _)). rewrite dec_enc_pl by now apply key_params_ok.
+  unfold key_from_map. rewrite (get_first_rt enc_guid dec_guid _ _ _ g rt_guid H); [reflexivity|].
+  rewrite lookup_all_padp. unfold key_to_params. now rewrite lookup_all_one_eq.
+Qed.
+Lemma key_from_map_ext k m m' :
+  (forall pid, In pid [key_pid k] -> m pid = m' pid) -> key_from_map k m = key_from_map k m'.
+Proof. intros H. unfold key_from_map, get_first. rewrite (H (key_pid k)) by (cbn; tauto). reflexivity. Qed.
 
 (* ------------------------------------------------------------------------------------------ *)
 (* ParticipantMessageData { guid: GuidPrefix [u8;12], kind: [u8;4], data: Vec<u8> }, plain CDR via
@@ -399,7 +438,7 @@ Proof. intros. apply in_or_app. now right. Qed.
 Lemma reader_from_map_rt e v m :
   reader_ok v -> shows m (reader_to_params e v) reader_pids -> reader_from_map e m = Some v.
 Proof.
-  intros (Hg & Hk & Hu & Hmc & Hpk & Htn & Hty & Hq & Hh & Hr & Hcf) S.
+  intros (Hg & Hk & Hu & Hmc & Hpk & Htn & Hty & Hq & Hh & Hr & Hcf & Hsec) S.
   unfold reader_from_map.
   rewrite (get_first_rt enc_guid dec_guid _ m _ (rd_remote_reader_guid v) rt_guid Hg)
     by (rewrite S by (cbn; tauto); unfold reader_to_params; lk2).
@@ -417,6 +456,8 @@ Proof.
     by (rewrite S by (cbn; tauto); unfold reader_to_params; lk2).
   rewrite (get_option_rt (enc_cfp e) _ _ m _ (rd_content_filter v) (rt_cfp e) Hcf)
     by (rewrite S by (cbn; tauto); unfold reader_to_params; lk2).
+  rewrite (get_option_rt (enc_secinfo e) _ _ m _ (rd_security_info v) (rt_secinfo _ e) Hsec)
+    by (rewrite S by (cbn; tauto); unfold reader_to_params; lk2).
   rewrite (qos_from_map_rt e (endpoint_qos (rd_qos v)) m (endpoint_qos_ok _ Hq)).
   - cbn [obind unwrap_or]. rewrite endpoint_qos_id by (cbn; reflexivity).
     rewrite endpoint_qos_id by assumption. destruct v; cbn in *. subst. reflexivity.
@@ -426,7 +467,7 @@ Qed.
 Lemma writer_from_map_rt e v m :
   writer_ok v -> shows m (writer_to_params e v) writer_pids -> writer_from_map e m = Some v.
 Proof.
-  intros (Hg & Hk & Hu & Hmc & Hmax & Hpk & Htn & Hty & Hq & Hh & Hr & Hsvc & Hrel & Hal) S.
+  intros (Hg & Hk & Hu & Hmc & Hmax & Hpk & Htn & Hty & Hq & Hh & Hr & Hsvc & Hrel & Hal & Hsec) S.
   unfold writer_from_map.
   rewrite (get_first_rt enc_guid dec_guid _ m _ (wd_remote_writer_guid v) rt_guid Hg)
     by (rewrite S by (cbn; tauto); unfold writer_to_params; lk2).
@@ -441,6 +482,8 @@ Proof.
   rewrite (get_first_rt (enc_string e) _ _ m _ (wd_type_name v) (rt_string e) (pstring_string_ok _ Hty))
     by (rewrite S by (cbn; tauto); unfold writer_to_params; lk2).
   rewrite (get_option_rt (enc_u32 e) _ _ m _ (wd_data_max_size_serialized v) (rt_u32 e) Hmax)
+    by (rewrite S by (cbn; tauto); unfold writer_to_params; lk2).
+  rewrite (get_option_rt (enc_secinfo e) _ _ m _ (wd_security_info v) (rt_secinfo _ e) Hsec)
     by (rewrite S by (cbn; tauto); unfold writer_to_params; lk2).
   rewrite (get_option_rt (enc_string e) _ string_ok m _ (wd_service_instance_name v) (rt_string e))
     by (try (rewrite S by (cbn; tauto); unfold writer_to_params; lk2);
@@ -481,7 +524,7 @@ Lemma reader_from_map_ext e m m' :
   (forall pid, In pid reader_pids -> m pid = m' pid) -> reader_from_map e m = reader_from_map e m'.
 Proof.
   intros H. unfold reader_from_map, get_option, get_first, get_all.
-  rewrite (H 90), (H 80), (H 67), (H 47), (H 48), (H 5), (H 7), (H 53) by (cbn; tauto).
+  rewrite (H 90), (H 80), (H 67), (H 47), (H 48), (H 5), (H 7), (H 53), (H 4100) by (cbn; tauto).
   rewrite (qos_from_map_ext e m m') by (intros pid Hin; apply H; unfold reader_pids; now apply in_app_r).
   reflexivity.
 Qed.
@@ -489,7 +532,7 @@ Lemma writer_from_map_old_ext e m m' :
   (forall pid, In pid writer_pids_old -> m pid = m' pid) -> writer_from_map_old e m = writer_from_map_old e m'.
 Proof.
   intros H. unfold writer_from_map_old, get_option, get_first, get_all.
-  rewrite (H 90), (H 80), (H 47), (H 48), (H 5), (H 7), (H 96) by (cbn; tauto).
+  rewrite (H 90), (H 80), (H 47), (H 48), (H 5), (H 7), (H 96), (H 4100) by (cbn; tauto).
   rewrite (qos_from_map_ext e m m') by (intros pid Hin; apply H; unfold writer_pids_old; now apply in_app_r).
   reflexivity.
 Qed.
@@ -497,7 +540,7 @@ Lemma writer_from_map_ext e m m' :
   (forall pid, In pid writer_pids -> m pid = m' pid) -> writer_from_map e m = writer_from_map e m'.
 Proof.
   intros H. unfold writer_from_map, get_option, get_first, get_all.
-  rewrite (H 90), (H 80), (H 47), (H 48), (H 5), (H 7), (H 96), (H 128), (H 129), (H 130) by (cbn; tauto).
+  rewrite (H 90), (H 80), (H 47), (H 48), (H 5), (H 7), (H 96), (H 4100), (H 128), (H 129), (H 130) by (cbn; tauto).
   rewrite (qos_from_map_ext e m m') by (intros pid Hin; apply H; unfold writer_pids; now apply in_app_r).
   reflexivity.
 Qed.
@@ -516,7 +559,7 @@ Proof. unfold guid_ok, enc_guid. intros ->. lia. Qed.
 
 Lemma reader_params_ok e v : reader_ok v -> Forall param_ok (reader_to_params e v).
 Proof.
-  intros (Hg & Hk & Hu & Hmc & Hpk & Htn & Hty & Hq & Hh & Hr & Hcf).
+  intros (Hg & Hk & Hu & Hmc & Hpk & Htn & Hty & Hq & Hh & Hr & Hcf & Hsec).
   unfold reader_to_params.
   pose proof (qos_params_ok e (endpoint_qos (rd_qos v))) as Q.
   set (qp := qos_to_params e (endpoint_qos (rd_qos v))) in *. clearbody qp.
@@ -531,6 +574,7 @@ Proof.
   - exact Q.
   - apply (opt_param_ok' _ _ cfp_ok); [unfold u16_ok; lia | discriminate | | exact Hcf].
     intros a (_ & _ & _ & _ & _ & L1 & L2). destruct e; assumption.
+  - apply opt_param_ok; [unfold u16_ok; lia | discriminate | intros a; rewrite enc_secinfo_len; lia].
 Qed.
 
 Lemma strings_small e l : Forall pstring_ok l -> Forall (fun v => len v <= 65532) (map (enc_string e) l).
@@ -538,7 +582,7 @@ Proof. induction 1; cbn [map]; constructor; auto using enc_string_small. Qed.
 
 Lemma writer_params_ok e v : writer_ok v -> Forall param_ok (writer_to_params e v).
 Proof.
-  intros (Hg & Hk & Hu & Hmc & Hmax & Hpk & Htn & Hty & Hq & Hh & Hr & Hsvc & Hrel & Hal).
+  intros (Hg & Hk & Hu & Hmc & Hmax & Hpk & Htn & Hty & Hq & Hh & Hr & Hsvc & Hrel & Hal & Hsec).
   unfold writer_to_params.
   pose proof (qos_params_ok e (endpoint_qos (wd_qos v))) as Q.
   set (qp := qos_to_params e (endpoint_qos (wd_qos v))) in *. clearbody qp.
@@ -555,6 +599,7 @@ Proof.
   - apply (opt_param_ok' _ _ guid_ok); [unfold u16_ok; lia | discriminate | apply guid_small | exact Hrel].
   - apply params_of_ok; [unfold u16_ok; lia | discriminate |]. apply strings_small.
     destruct (wd_topic_aliases v); cbn in *; [exact (proj2 Hal)|constructor].
+  - apply opt_param_ok; [unfold u16_ok; lia | discriminate | intros a; rewrite enc_secinfo_len; lia].
 Qed.
 
 Lemma topic_params_ok e v : topic_ok v -> Forall param_ok (topic_to_params e v).
@@ -592,7 +637,7 @@ Definition writer_witness : writer_data :=
      wd_data_max_size_serialized := None; wd_key := [1;2;3;4;5;6;7;8;9;10;11;12;0;0;1;2];
      wd_participant_key := None; wd_topic_name := [116]; wd_type_name := [84]; wd_qos := qos_none;
      wd_service_instance_name := Some [115; 118; 99]; wd_related_datareader_key := None;
-     wd_topic_aliases := None |}.
+     wd_topic_aliases := None; wd_security_info := None |}.
 Lemma writer_witness_ok : writer_ok writer_witness.
 Proof.
   unfold writer_ok, writer_witness, guid_ok, pstring_ok, qos_ok; cbn.
